@@ -406,9 +406,10 @@ package csrf
 //@   ensures valid-entry-layout: result0 ==> layout(origin)
 //@   ensures normalised-parts: result0 ==> len(result1) == len(urlScheme(origin)) + 3 + len(urlHost(origin)) && result1[:len(urlScheme(origin))] == lower(urlScheme(origin)) && result1[len(urlScheme(origin)):len(urlScheme(origin))+3] == "://" && result1[len(urlScheme(origin))+3:] == lower(urlHost(origin))
 //@   ensures normalised-prefix: result0 ==> result1[:len(urlScheme(origin))+3] == lower(urlScheme(origin)) + "://"
+//@   ensures normalised-separator-bytes: result0 ==> result1[len(urlScheme(origin))] == ':' && result1[len(urlScheme(origin))+1] == '/' && result1[len(urlScheme(origin))+2] == '/'
 //@   ensures normalised-scheme-has-no-separator: result0 ==> forall(k, 0, len(urlScheme(origin)), result1[k] != ':' && result1[k] != '/')
 //@   ensures normalised-is-lower: result0 ==> result1 == lower(result1)
-//@   ensures single-separator-behind-scheme: result0 ==> forall(m, 0, len(origin) - 2, origin[m] == ':' && origin[m+1] == '/' && origin[m+2] == '/' ==> m == len(urlScheme(origin)))
+//@   ensures single-separator-behind-scheme: result0 ==> forall(m, 0, len(origin) - 2, origin[m] == ':' ==> forall(p, 0, len(origin), p == m + 1 && origin[p] == '/' ==> forall(q, 0, len(origin), q == m + 2 && origin[q] == '/' ==> m == len(urlScheme(origin)))))
 //@   ensures host-byte-behind-separator: result0 && !urlHasUser(origin) && origin[len(urlScheme(origin))+3] != '%' ==> result1[len(urlScheme(origin))+3] == lower(origin)[len(urlScheme(origin))+3]
 
 //@ func configDefault panics
@@ -458,11 +459,13 @@ package csrf
 //@   loop 1
 //@     invariant index-in-range: rangeindex < len(cfg.TrustedOrigins)
 //@     invariant lists-are-own-storage: arr(trustedOrigins) != arr(cfg.TrustedOrigins)
+//@     invariant configured-list-is-the-callers: cfg.TrustedOrigins == old(ite(len(config) > 0, config[0].TrustedOrigins, ConfigDefault.TrustedOrigins))
 //@     invariant one-list-element-per-entry: len(trustedOrigins) + len(trustedSubOrigins) == rangeindex + 1
+//@     invariant newest-exact-entry-is-last-element: rangeindex >= 0 && markerAt(cfg.TrustedOrigins[rangeindex]) == -1 ==> len(trustedOrigins) > 0 && trustedOrigins[len(trustedOrigins)-1] == exactOf(cfg.TrustedOrigins[rangeindex])
+//@     invariant newest-wildcard-entry-is-last-element: rangeindex >= 0 && markerAt(cfg.TrustedOrigins[rangeindex]) >= 0 ==> len(trustedSubOrigins) > 0 && trustedSubOrigins[len(trustedSubOrigins)-1].prefix == wildPrefixOf(cfg.TrustedOrigins[rangeindex]) && trustedSubOrigins[len(trustedSubOrigins)-1].suffix == wildSuffixOf(cfg.TrustedOrigins[rangeindex])
 //@     invariant trusted-are-origins: trustedWf(trustedOrigins)
 //@     invariant exact-entries-traced: exactTraced(rangeindex + 1)
 //@     invariant exact-entries-lower: exactLower()
-//@     invariant every-entry-listed: forall(j, 0, rangeindex + 1, entryListed(cfg.TrustedOrigins[j]))
 //@     invariant wildcard-entries-traced: wildTraced(rangeindex + 1)
 //@     invariant wildcard-prefix-ends-with-separator: forall(k, 0, len(trustedSubOrigins), len(trustedSubOrigins[k].prefix) > 3 && trustedSubOrigins[k].prefix[len(trustedSubOrigins[k].prefix)-3:] == "://")
 //@     invariant wildcard-prefix-is-one-scheme: forall(k, 0, len(trustedSubOrigins), forall(m, 0, len(trustedSubOrigins[k].prefix)-3, trustedSubOrigins[k].prefix[m] != ':' && trustedSubOrigins[k].prefix[m] != '/'))
@@ -470,12 +473,18 @@ package csrf
 //@     invariant wildcard-prefix-lower: forall(k, 0, len(trustedSubOrigins), trustedSubOrigins[k].prefix == lower(trustedSubOrigins[k].prefix))
 //@     invariant wildcard-suffix-lower: forall(k, 0, len(trustedSubOrigins), trustedSubOrigins[k].suffix == lower(trustedSubOrigins[k].suffix))
 //@     invariant wildcard-entries-shaped: wildShaped()
+//@     invariant every-exact-entry-listed: forall(j, 0, rangeindex + 1, exactListed(cfg.TrustedOrigins[j]))
+//@     invariant every-wildcard-entry-listed: forall(j, 0, rangeindex + 1, wildListed(cfg.TrustedOrigins[j]))
+// (first: it equates the list as read at the return with the list the loop invariants speak of - one ground equation
+// instead of select/store reasoning over the seventeen field heaps of the configuration copy - so that the index
+// patterns of the clauses below match the witnesses the invariants hand over)
+//@   ensures configured-list-is-the-callers: cfg.TrustedOrigins == old(ite(len(config) > 0, config[0].TrustedOrigins, ConfigDefault.TrustedOrigins))
 //@   ensures trusted-are-origins: trustedWf(trustedOrigins)
 //@   ensures one-list-element-per-entry: len(trustedOrigins) + len(trustedSubOrigins) == len(cfg.TrustedOrigins)
-//@   ensures every-entry-listed: forall(j, 0, len(cfg.TrustedOrigins), entryListed(cfg.TrustedOrigins[j]))
-//@   ensures exact-entries-traced: exactTraced(len(cfg.TrustedOrigins))
+//@   ensures every-entry-listed: forall(j, 0, len(cfg.TrustedOrigins), entryListedAtExit(cfg.TrustedOrigins[j]))
+//@   ensures exact-entries-traced: exactTracedAtExit(len(cfg.TrustedOrigins))
 //@   ensures exact-entries-lower: exactLower()
-//@   ensures wildcard-entries-traced: wildTraced(len(cfg.TrustedOrigins))
+//@   ensures wildcard-entries-traced: wildTracedAtExit(len(cfg.TrustedOrigins))
 //@   ensures trusted-wildcards-shaped: wildShaped()
 //@   ensures configured-list-kept: len(config) > 0 ==> cfg.TrustedOrigins == old(config[0].TrustedOrigins)
 //@   ensures session-manager-wired: cfg.Session != nil ==> sessionManager != nil && sessionManager.session == cfg.Session
